@@ -449,12 +449,17 @@ try:
     pg = re.search(r"const PAGE_SIZE: usize = (\d+);", txt)
     ru = re.search(r"fn round_up_to_page\((?:value|size): usize\) -> usize \{ (.*?) \}", " ".join(txt.split()))
     ru_ok = bool(ru and ru.group(1).replace(" ", "") in ("(size+PAGE_SIZE-1)&!(PAGE_SIZE-1)", "(value+PAGE_SIZE-1)&!(PAGE_SIZE-1)"))
+    flat_ = " ".join(txt.split())
+    eb = "macro_rules! emit_bytes { ( $mem:ident, $data:tt, $t:ty ) => {{ let size = mem::size_of::<$t>() as usize; if $mem.write_enabled { assert!($mem.offset + size <= $mem.contents.len()); unsafe { let ptr = $mem.contents.as_mut_ptr().add($mem.offset) as *mut $t; ptr.write_unaligned($data); } } $mem.offset += size; }}; }" in flat_
+    ew = all(("fn emit%d(&self, mem: &mut JitMemory, data: u%d) { emit_bytes!(mem, data, u%d); }" % (k, 8 * k, 8 * k)) in flat_ for k in (1, 2, 4, 8))
+    lines += ["/-- `emit_bytes!`: the data is written at the offset when writing is enabled (the assertion admits a write that ends exactly at the buffer's end), the offset advances by the",
+              "    data's size either way; `emit1/2/4/8` are that macro at u8 / u16 / u32 / u64 -/", "def emitBytesShape : Bool := %s" % ("true" if eb and ew else "false")]
     lines += ["/-- `resolve_jumps` and the std `JitMemory::new` have the shapes the model's `resolveJumps` / `compile` / `bufferSize` mirror -/",
               "def resolveJumpsShape : Bool := %s" % ("true" if rj else "false"), "def jitMemoryNewShape : Bool := %s" % ("true" if nw else "false"),
               "def pageSizeSrc : Nat := %s" % (pg.group(1) if pg else "0"), "def roundUpShape : Bool := %s" % ("true" if ru_ok else "false"), ""]
 except Exception as ex:
     problems.append("resolve_jumps / JitMemory::new: %s" % ex)
-    lines += ["def resolveJumpsShape : Bool := false", "def jitMemoryNewShape : Bool := false", "def pageSizeSrc : Nat := 0", "def roundUpShape : Bool := false", ""]
+    lines += ["def emitBytesShape : Bool := false", "def resolveJumpsShape : Bool := false", "def jitMemoryNewShape : Bool := false", "def pageSizeSrc : Nat := 0", "def roundUpShape : Bool := false", ""]
 for p in problems: lines.append("/- not translated: %s -/" % p.replace("-/", "- /"))
 lines += ["end Rbpf.Generated.Jit", ""]
 new = "\n".join(lines)
